@@ -794,7 +794,7 @@ _KMN = [(1, 6), (2, 5), (2, 6), (3, 4), (3, 5), (3, 6), (4, 4), (4, 5), (2, 7)]
 # the shape in the comment at ismags.py:872: two centres joined, two legs of length two each
 _FABIAN = (10, [(0, 1), (0, 2), (2, 3), (0, 4), (4, 5), (1, 6), (6, 7), (1, 8), (8, 9)])
 FAMILIES = ['cycle', 'path', 'star', 'spider', 'tree', 'kmn', 'doubled-tree', 'fabian', 'union', 'prism', 'wheel',
-            'cube', 'petersen', 'complete', 'cycles']
+            'cube', 'petersen', 'complete', 'cycles', 'star-of-stars', 'star-of-stars', 'star-of-stars', 'star-of-stars']
 
 
 @st.composite
@@ -854,6 +854,25 @@ def _family(draw, name):
             else:
                 parts[-1] = other
         return _union(parts)
+    if name == 'star-of-stars':
+        # three or four equivalent arms that each carry two or three equivalent leaves (guanidinium, tert-butyl, neopentane):
+        # coupling one arm splits the leaves of the others into equally large cells
+        arms, leaves, tail = draw(st.sampled_from([(3, 2, 0), (3, 2, 1), (3, 2, 2), (3, 3, 0), (4, 2, 0), (3, 2, 0)]))
+        edges = []
+        n = 1
+        for _ in range(arms):
+            arm = n
+            edges.append((0, arm))
+            n += 1
+            for _ in range(leaves):
+                edges.append((arm, n))
+                n += 1
+        prev = 0
+        for _ in range(tail):
+            edges.append((prev, n))
+            prev = n
+            n += 1
+        return n, edges
     if name == 'cycles':
         # components that colour refinement cannot tell apart although they are not isomorphic (C5 + C3, C6 + C3 + C3)
         lengths = draw(st.lists(st.integers(3, 6), min_size=2, max_size=3))
